@@ -12,7 +12,8 @@ import Driver.Util
                                    digits (0 NEW 1 RCMD 2 READING 3 DONE 4 FAILED 5 CANCELED)  -> ok | reject ..
     ev D <createS|lock|wait|wake 0|wake 1|relock|create j|unlock|cancelS|return>
     ev W<i> <lockT|time|unlockT|connectBegin|connectEnd 0|connectEnd 1|destroyBegin|destroyEnd|lock|signal|unlock>
-    ev Z <sigwait int|sigwait tstp|time v|lockT|fwd h|unlockT|lock|unlock|stop|exit c>
+    ev Z <sigwait int|sigwait tstp|time v|lockT|fwd h|unlockT|lock|unlock|stop|exit c|die>
+                                   die: the thread ends on dsh()'s (deferred) cancellation request
     ev E <deliver int|deliver tstp|tick v>                                                -> ok | reject ..
     obs list <i,j,..|->            hosts named by the listing the implementation just printed
     obs canc <n>                   the number in "Canceled n pending threads"
@@ -67,6 +68,7 @@ def parseLabel : List String → Option Label
   | ["Z", "lock"] => some (.s .lock)
   | ["Z", "unlock"] => some (.s .unlock)
   | ["Z", "stop"] => some (.s .stop)
+  | ["Z", "die"] => some (.s .die)
   | ["Z", "exit", c] => c.toNat?.map fun c => .s (.exit c)
   | ["E", "deliver", g] => (parseSg g).map fun g => .e (.deliver g)
   | ["E", "tick", v] => v.toNat?.map fun v => .e (.tick v)
@@ -91,10 +93,15 @@ def parseLabel : List String → Option Label
       | _ => none
   | _ => none
 
+/-- the harness's cancellation points of the signals thread are sigwait only (the model allows more: any point of a
+    handler): in the middle of a handler `die` does not count as "runnable" -/
+def zEnabled (s : St) : Bool :=
+  (sActs s).any fun a => (a != .die || s.spc == .waiting) && (step s (.s a)).isSome
+
 def enabledNames (s : St) : List String :=
   (if dEnabled s then ["D"] else []) ++
   (((List.range s.ws.length).filter (wEnabled s)).map fun i => s!"W{i}") ++
-  (if sEnabled s then ["Z"] else []) ++ (if gEnabled s then ["G"] else [])
+  (if zEnabled s then ["Z"] else []) ++ (if gEnabled s then ["G"] else [])
 
 def showW : WP → String
   | .idle => "idle" | .started => "started" | .rcmdL => "rcmdL" | .skipL => "skipL" | .ready => "ready" | .connecting => "connecting"
@@ -130,7 +137,7 @@ def showNats (l : List Nat) : String := if l.isEmpty then "-" else ",".intercala
 def showSt (s : St) : String :=
   s!"dpc={showDPC s.dpc} i={s.i} tc={s.tc} own={showOwn s.own} thd={showOwn s.thd} sig={s.sig} " ++
   s!"ws={",".intercalate (s.ws.map showW)} ts={showTs s} spc={showSPC s.spc} pend={s.pend.length} now={s.now} " ++
-  s!"last={s.last} gpc={showGPC s.gpc} gcan={s.gcan} gjoin={s.gjoin}"
+  s!"last={s.last} gpc={showGPC s.gpc} gcan={s.gcan} gjoin={s.gjoin} scan={s.scan}"
 
 /-- a worker whose next protocol operation is a lock request may be runnable in the implementation on
     operations the model does not see (time(), poll/read/close/fputs) although the lock is taken -/
